@@ -7,36 +7,83 @@ from vlib import core
 TRUST = ("Lean 4.33 kernel; axioms at most propext/Classical.choice/Quot.sound (audited per run); "
          "hand-written model Model/Loss.lean tied to the C++ by the correspondence harness (differential, generator-bounded); ")
 MANIFEST = dict(
-  text=("Theorems (Props/C06.lean): for every loss in the model the batch value is the sum of the per-element values and the "
-        "derivative call returns the same value as eval (exact arithmetic, all batch sizes and dimensions); gradients are the true "
-        "derivatives of the per-element value w.r.t. the prediction over the reals (HasDerivAt, away from the stated kink points); "
-        "ErrorFunction: for every batch partition, every thread count 1..numBatches (thread ranges generated from the C++) and every "
-        "order in which threads merge their partial sums the result is the mean per-element loss; equal weights give the unweighted "
-        "result; the regularizer adds exactly strength*term. Correspondence: every loss (eval and evalDerivative) on dyadic data, "
-        "exact comparison for the piecewise-polynomial losses (FE_INEXACT must stay clear), bit-for-bit comparison with the Float "
-        "instance for CrossEntropy/Huber, plus an in-harness oracle (batch = sum of single-element calls, derivative value = eval)."),
-  note=TRUST + "floating-point rounding is not modelled (theorems are about exact arithmetic; the step to doubles is the correspondence); "
-       "NegativeAUC, DiscreteLoss and the sequence specialisation of SquaredLoss are not modelled; the ErrorFunction gradient clause "
-       "relies on the model-derivative contract of C04.",
-  technique="Lean 4 proofs (algebraic identities over Rat, HasDerivAt over Real) + exact/bit-exact differential correspondence with the C++ losses",
+  text=("Theorems (Props/C06.lean + Lemmas/LossCurve1/2, LossSecond, ErrFn, ErrFn2): for every loss class of Shark the batch value is "
+        "the sum of the per-element values and the derivative call returns the value of eval; every differentiable loss (squared "
+        "with vector and class labels, hinge and squared hinge in the one-column and the multi-class branch, epsilon-hinge, squared "
+        "epsilon-hinge, Huber, cross-entropy with one column, several columns and probability-vector labels) satisfies the "
+        "total-derivative contract BatchGradAt over the reals (derivative along every differentiable curve of predictions; kink "
+        "points stated as hypotheses, none for the C1 losses), the Hessian entries of cross-entropy are the derivatives of its "
+        "gradient, one-/two-norm regularizers (masked) return their gradients. End to end "
+        "(errorFunction_evalDerivative_end_to_end): for every ConcatenatedModel of C04 (its derivative theorem is imported, not "
+        "assumed), every data set, every batch partition, every thread count >= 1 with the thread ranges regenerated from the C++ "
+        "and every order in which the threads merge, the modelled ErrorFunction::evalDerivative returns the mean loss and the "
+        "derivative of the mean loss w.r.t. the weight (offset: chain_offset_contract) it is asked for; two partitions of the same "
+        "data give the same error (errorFunction_partition_independent); weighted variant = weighted mean and its gradient, equal "
+        "weights = unweighted; mini-batch branch = mean over the drawn batch, its expectation = data-set mean for equal batch "
+        "sizes; regularizer / CombinedObjectiveFunction add exactly strength*term to value and gradient; NegativeLogLikelihood "
+        "value independent of threads. Correspondence K-C06 on every run: all eleven loss classes incl. all overloads (exact "
+        "comparison on dyadic data, bit-for-bit with the Float instance for exp/log/sqrt losses), the real ErrorFunction "
+        "(eval and evalDerivative; LinearModel and two-layer ConcatenatedModel; unweighted, weighted, mini-batch, with One/TwoNorm "
+        "regularizer and masks, inside a CombinedObjectiveFunction) over random partitions and thread counts 1..B+1, "
+        "AbstractLoss::eval(Data,Data), NegativeAUC, NegativeLogLikelihood, with in-harness oracles that recompute value and "
+        "gradient element by element and every loss value from its textbook definition."),
+  note=TRUST + "floating-point rounding is not modelled (theorems are about exact arithmetic; the step to doubles is the correspondence: "
+       "data that is merged across threads is exact, exp/log/sqrt losses are compared bit for bit on one thread); hand-written "
+       "models Model/Loss2.lean, Model/ErrFn.lean; the derivative theorems are per parameter (weight / offset of an optimised dense "
+       "layer of a C04 chain) away from the kinks of model (C04 NoKink) and loss (stated per loss; CrossEntropy's < -200 shortcut "
+       "excluded); NegativeAUC = pair count and the loss values' textbook definitions are oracles, not theorems; "
+       "CrossValidationError is not reached (needs a trainer); the second-derivative overload of CrossEntropy and "
+       "NegativeWilcoxonMannWhitneyStatistic are tied to the code only once findings F-C06-2/3 are fixed (until then the check "
+       "reports them as KNOWN-FINDING); open findings F-C06-1..4 in known_findings.json.",
+  technique="Lean 4 proofs (algebraic identities over Rat, HasDerivAt over Real composed through the C04 chain theorems, thread-range tiling regenerated from the source) + exact/bit-exact differential correspondence with the C++ losses and the real ErrorFunction",
   design="§6 C06")
 FINISH = dict(level="proof",
-              rule="cases = (loss, eval|deriv, batch of dyadic labels/predictions); exact-closed losses in rat mode, exp/log/sqrt losses in "
-                   "float mode; distinct = distinct op text; non-trivial = batch with >= 2 rows and at least one active and one inactive hinge/branch")
+              rule="cases = (loss, eval|deriv, batch of dyadic labels/predictions) for every loss class; (flavour, loss, model, partition, threads, "
+                   "data) for the real ErrorFunction; cost/auc/nll/discrete/sequence ops; exact-closed losses in rat mode, exp/log/sqrt "
+                   "losses and everything divided by n in float mode; distinct = distinct op text; non-trivial = more than one row / batch")
 LAKE_TARGETS = ["SharkVerif.Props.C06", "drv_c06"]
-SRC = ["src/Core/Random.cpp"]
+# Props/C06.lean states the property; the composition lemmas it imports are obligations of their own
+PROOF_MODULES = ["SharkVerif.Props.C06", "SharkVerif.Lemmas.ErrFn", "SharkVerif.Lemmas.ErrFn2", "SharkVerif.Lemmas.LossCurve1",
+                 "SharkVerif.Lemmas.LossCurve2", "SharkVerif.Lemmas.LossSecond", "SharkVerif.Lemmas.LossContract"]
+SRC = ["src/Core/Random.cpp", "src/ObjectiveFunctions/DiscreteLoss.cpp"]
 EXACT = ["squared", "squaredclass", "hinge", "sqhinge", "epshinge", "sqepshinge", "zeroone"]
-FLOATY = ["crossentropy", "huber", "squared", "hinge", "epshinge"]
+FLOATY = ["crossentropy", "crossentropysoft", "huber", "absolute", "squared", "hinge", "sqhinge", "epshinge"]
 CLASS = {"squaredclass", "hinge", "sqhinge", "crossentropy", "zeroone"}
-NODERIV = {"zeroone", "sqhinge"}      # sqhinge derivative is compared through the oracle only (model has the binary row only)
+NODERIV = {"zeroone", "absolute"}
+EF_VEC = ["squared", "epshinge", "sqepshinge"]
+EF_CLS = ["squaredclass", "hinge", "sqhinge"]
 
 
 def translate(ctx):
     return ctx.translate("par_regions.py")
 
 
+WMW_PROBE = """#include <shark/ObjectiveFunctions/NegativeAUC.h>
+using namespace shark;
+double probe(Data<unsigned int> const& t, Data<RealVector> const& p){ NegativeWilcoxonMannWhitneyStatistic<unsigned int, RealVector> w; return w.eval(t, p); }
+"""
+
+
+def wmw_compiles(ctx):
+    """NegativeWilcoxonMannWhitneyStatistic::eval is a member of a class template: whether it can be instantiated at
+    all is only seen when it is used.  Syntax-only compile of a three-line probe, cached by the header's content."""
+    import hashlib, subprocess
+    hdr = os.path.join(core.REPO, "include/shark/ObjectiveFunctions/NegativeAUC.h")
+    key = hashlib.sha256((open(hdr).read() + WMW_PROBE).encode()).hexdigest()[:16]
+    d = os.path.join(core.CACHE, "c06probe"); os.makedirs(d, exist_ok=True)
+    res = os.path.join(d, key + ".res")
+    if os.path.exists(res):
+        return open(res).read().strip() == "ok"
+    src = os.path.join(d, key + ".cpp"); open(src, "w").write(WMW_PROBE)
+    pr = subprocess.run(["g++", "-std=c++11", "-DNDEBUG", "-w", "-fopenmp", "-fsyntax-only", "-I" + ctx.shark_h(),
+                         "-I" + os.path.join(core.REPO, "include"), src], capture_output=True, text=True)
+    open(res, "w").write("ok" if pr.returncode == 0 else "fail\n" + pr.stderr[-2000:])
+    return pr.returncode == 0
+
+
 def build(ctx):
-    return ctx.harness("c06", ["c06.cpp"], repo_sources=SRC)
+    flags = ["-DC06_HAVE_WMW"] if wmw_compiles(ctx) else []
+    return ctx.harness("c06" + ("w" if flags else ""), ["c06.cpp", "c06b.cpp"], repo_sources=SRC, flags=flags)
 
 
 def dy(r, lo, hi, fracbits):
@@ -76,24 +123,190 @@ def gen_loss_case(r, loss, floaty):
     return f"{kind} {loss} | {par} | {n} {m} | {labels} | {preds}"
 
 
+# ----------------------------------------------------------------------------- generators of the second part
+def perm(r, n):
+    o = list(range(n))
+    for i in range(n - 1, 0, -1):
+        j = r.below(i + 1); o[i], o[j] = o[j], o[i]
+    return o
+
+
+def gen_sizes(r, ctx, tag, allow_empty_batch=True):
+    """batch partition of a small data set; boundary classes: one batch, one element, a batch of size 0, many batches"""
+    shape = r.choice(["one-batch", "one-element", "singletons", "ragged", "ragged", "equal", "with-empty-batch"])
+    if shape == "one-batch": sizes = [r.range(1, 6)]
+    elif shape == "one-element": sizes = [1]
+    elif shape == "singletons": sizes = [1] * r.range(2, 7)
+    elif shape == "equal": sizes = [r.range(1, 3)] * r.range(2, 6)
+    else: sizes = [r.range(1, 4) for _ in range(r.range(2, 7))]
+    if shape == "with-empty-batch":
+        if allow_empty_batch: sizes[r.below(len(sizes))] = 0
+        if sum(sizes) == 0: sizes.append(1)
+    ctx.hist(tag + "_partition_shape", shape)
+    ctx.hist(tag + "_num_batches", len(sizes))
+    return sizes
+
+
+def gen_labels(r, ctx, loss, n, m, tag):
+    if loss in EF_CLS or loss in ("zeroone",):
+        classes = 2 if m == 1 else m
+        enc = r.choice(["random", "random", "one-class", "alternating"])
+        if enc == "one-class":
+            c = r.below(classes); labs = [c] * n
+        elif enc == "alternating": labs = [i % classes for i in range(n)]
+        else: labs = [r.below(classes) for _ in range(n)]
+        ctx.hist(tag + "_label_encoding", f"{'one-column{0,1}' if m == 1 else 'multi-class'}:{enc}")
+        return " ".join(map(str, labs))
+    return " ".join(dy(r, -3, 3, 1) for _ in range(n * m))
+
+
+def gen_net(r, ctx, m, tag):
+    nIn = r.range(1, 3)
+    if r.chance(1, 3):
+        nh = r.range(1, 3)
+        spec = [f"rectifier:{r.below(2)}:{nh}", f"linear:{r.below(2)}:{m}"]
+    else:
+        spec = [f"linear:{r.below(2)}:{m}"]
+    np_, cur = 0, nIn
+    for l in spec:
+        _, hb, no = l.split(":"); np_ += int(no) * cur + (int(no) if hb == "1" else 0); cur = int(no)
+    ctx.hist(tag + "_model", "+".join(x.split(":")[0] + ("+b" if x.split(":")[1] == "1" else "") for x in spec))
+    return nIn, spec, np_
+
+
+def gen_ef_case(r, ctx, flavour, kind=None):
+    loss = r.choice(EF_VEC + EF_CLS)
+    m = r.choice([1, 1, 2, 3]) if loss != "squaredclass" else r.choice([2, 3])
+    par = dy(r, 0, 2, 1) if loss in ("epshinge", "sqepshinge") else ""
+    sizes = gen_sizes(r, ctx, "ef", allow_empty_batch=(flavour != "mini"))
+    if flavour == "mini" and len(sizes) == 1 and r.chance(3, 4):
+        sizes = sizes + [r.range(1, 4) for _ in range(r.range(1, 3))]      # one batch: the mini-batch branch equals the full one
+    n, B = sum(sizes), len(sizes)
+    nIn, spec, np_ = gen_net(r, ctx, m, "ef")
+    T = r.choice([1, 2, 3, 4, 8, B, B + 1])
+    kind = kind or ("eval" if r.chance(1, 3) else "deriv")
+    params = " ".join(dy(r, -2, 2, 1) for _ in range(np_))
+    xs = " ".join(dy(r, -3, 3, 2) for _ in range(n * nIn))
+    labs = gen_labels(r, ctx, loss, n, m, "ef")
+    order = perm(r, min(T, B))
+    extra = "none"
+    if flavour == "w":
+        wk = r.choice(["random", "random", "with-zeros", "all-equal", "one-nonzero", "all-zero"] if n > 1 else ["random", "all-zero", "all-equal"])
+        if wk == "all-equal": c = dy(r, 1, 3, 1); ws = [c] * n
+        elif wk == "all-zero": ws = ["0"] * n
+        elif wk == "one-nonzero": ws = ["0"] * n; ws[r.below(n)] = dy(r, 1, 3, 1)
+        else: ws = [("0" if (wk == "with-zeros" and r.chance(1, 2)) else dy(r, 0, 3, 1)) for _ in range(n)]
+        ctx.hist("ef_weights", wk)
+        extra = "w " + " ".join(ws); order = perm(r, B)
+    elif flavour == "mini":
+        extra = f"mini {r.range(1, 1000)}"
+    elif flavour == "reg":
+        rk = r.choice(["one", "two"]); mk = ""
+        mkind = r.choice(["no-mask", "01-mask", "real-mask"])
+        if mkind == "01-mask": mk = " " + " ".join(str(r.below(2)) for _ in range(np_))
+        if mkind == "real-mask": mk = " " + " ".join(dy(r, 0, 3, 1) for _ in range(np_))
+        ctx.hist("ef_regularizer", f"{rk}:{mkind}")
+        extra = f"reg {rk} {dy(r, 0, 2, 2)}{mk}"
+    elif flavour == "comb":
+        extra = f"comb {dy(r, 0, 2, 1)} {dy(r, 0, 2, 1)} {dy(r, 0, 2, 1)}"
+    ctx.hist("ef_flavour", f"{flavour}:{kind}"); ctx.hist("ef_loss", f"{loss}:m={m}"); ctx.hist("ef_threads_vs_batches", "T>B" if T > B else ("T=B" if T == B else ("T=1" if T == 1 else "1<T<B")))
+    ctx.hist("ef_num_elements", n if n < 4 else "4+")
+    return (f"ef {kind} | {loss} {par} | {nIn} {' '.join(spec)} | {T} {' '.join(map(str, order))} | {params} | "
+            f"{' '.join(map(str, sizes))} | {xs} | {labs} | {extra}")
+
+
+def gen_cost_case(r, ctx):
+    loss = r.choice(["squared", "hinge", "zeroone", "epshinge"])
+    m = r.choice([1, 1, 2, 3])
+    sizes = gen_sizes(r, ctx, "cost"); n, B = sum(sizes), len(sizes)
+    T = r.choice([1, 2, 3, 4, 8, B + 1])
+    par = dy(r, 0, 2, 1) if loss == "epshinge" else (dy(r, -1, 1, 1) if loss == "zeroone" else "")
+    labs = gen_labels(r, ctx, "zeroone" if loss in ("hinge", "zeroone") else loss, n, m, "cost")
+    prs = " ".join(dy(r, -3, 3, 2) for _ in range(n * m))
+    return f"cost {loss} | {par} | {T} {' '.join(map(str, perm(r, B)))} | {' '.join(map(str, sizes))} | {m} | {labs} | {prs}"
+
+
+def gen_auc_case(r, ctx, op):
+    sizes = gen_sizes(r, ctx, "auc", allow_empty_batch=False); n = sum(sizes)   # Data::element(i) cannot step over an empty batch (see findings_proposed/C06.md, O1)
+    kind = r.choice(["random", "ties", "all-tied", "separable", "one-class"])
+    labs = [r.below(2) for _ in range(n)]
+    if kind != "one-class" and n >= 2:
+        labs[0], labs[1] = 0, 1
+    if kind == "one-class": c = r.below(2); labs = [c] * n
+    if kind == "ties": sc = [str(r.range(-1, 1)) for _ in range(n)]
+    elif kind == "all-tied": sc = ["1"] * n
+    elif kind == "separable": sc = [str(3 * l + r.range(0, 1)) for l in labs]
+    else: sc = [dy(r, -4, 4, 3) for _ in range(n)]
+    ctx.hist("auc_kind", kind)
+    return f"{op} {r.below(2)} | {' '.join(map(str, sizes))} | {' '.join(map(str, labs))} | {' '.join(sc)}"
+
+
+def gen_zow_case(r, ctx):
+    sizes = gen_sizes(r, ctx, "zow", allow_empty_batch=False); n = sum(sizes); m = r.choice([1, 2, 3])   # with more batches than elements F-C06-1 reads beyond the weight vector
+    labs = gen_labels(r, ctx, "zeroone", n, m, "zow")
+    prs = " ".join(dy(r, -3, 3, 2) for _ in range(n * m))
+    ws = " ".join(dy(r, 0, 3, 1) for _ in range(n))
+    return f"zow | {dy(r, -1, 1, 1)} | {' '.join(map(str, sizes))} | {m} | {labs} | {prs} | {ws}"
+
+
+def gen_misc_case(r, ctx):
+    k = r.choice(["zeroonelabel", "discrete", "balanced", "seq", "seq", "hessplaceholder"])
+    if k in ("zeroonelabel", "discrete", "balanced"):
+        n = r.choice([0, 1, 2, 5]); c = r.range(1, 4)
+        if k == "balanced": n = max(n, 1)
+        ll = [r.below(c) for _ in range(n)]
+        if k == "balanced": ll[0] = c - 1          # defineBalancedCost sizes the matrix by the largest label present
+        labs = " ".join(map(str, ll)); prs = " ".join(str(r.below(c)) for _ in range(n))
+        par = ""
+        if k == "discrete":
+            par = " ".join(("0" if a == b else dy(r, 0, 4, 2)) for a in range(c) for b in range(c))
+        ctx.hist("misc_ops", k)
+        return ("mode float" if k == "balanced" else "mode rat"), f"eval {k} | {par} | {n} {c} | {labs} | {prs}"
+    if k == "seq":
+        d = r.range(1, 2); ns = r.choice([1, 2, 3]); ignore = r.choice([0, 0, 1, 2])
+        lens = [r.range(1, 4) for _ in range(ns)]
+        tot = sum(lens)
+        ctx.hist("misc_ops", "seq:" + ("throws(ignore>=length)" if any(x <= ignore for x in lens) else f"ignore={ignore}"))
+        return "mode rat", (f"seq {'eval' if r.chance(1, 3) else 'deriv'} | {ignore} {d} | {' '.join(map(str, lens))} | "
+                            f"{' '.join(dy(r, -3, 3, 2) for _ in range(tot * d))} | {' '.join(dy(r, -3, 3, 2) for _ in range(tot * d))}")
+    m = r.choice([2, 3])
+    ctx.hist("misc_ops", "nll")
+    nIn = r.range(1, 2); sizes = [r.range(1, 3) for _ in range(r.range(1, 4))]; n = sum(sizes)
+    hb = r.below(2)
+    params = " ".join(dy(r, 1, 3, 2) for _ in range(nIn + hb))
+    xs = " ".join(dy(r, 1, 9, 3) for _ in range(n * nIn))
+    return "mode float", f"nll {'eval' if r.chance(1, 2) else 'deriv'} | {nIn} linear:{hb}:1 | {r.choice([1, 2, 3, 4])} | {params} | {' '.join(map(str, sizes))} | {xs}"
+
+
+def load_corpus():
+    d = os.path.join(core.VERIF, "corpus", "C06")
+    out = []
+    for f in sorted(os.listdir(d)) if os.path.isdir(d) else []:
+        ls = [l.strip() for l in open(os.path.join(d, f)) if l.strip() and not l.startswith("#")]
+        if ls: out.append((f, ls))
+    return out
+
+
 def classify(ops, res):
     kinds = sorted({o.split()[1] for o in ops if o.split()[0] in ("eval", "deriv")} | {o.split()[0] for o in ops if o.split()[0] not in ("eval", "deriv", "mode")})
     if res.crash:
         return f"crash:{'+'.join(kinds)}", f"harness aborted on {ops}"
     if res.oracle:
         m = re.search(r"!oracle (\S+)", res.oracle[0])
+        if m.group(1).startswith("F-C06-"):
+            return f"{m.group(1)}:{'+'.join(kinds)}", f"known-defect signature {m.group(1)} on {ops}"
         return f"oracle:{m.group(1)}:{'+'.join(kinds)}", f"property oracle failed ({m.group(1)}) on {ops}"
     return f"mismatch:{'+'.join(kinds)}", f"model and implementation disagree at line {res.diff_at} on {ops}"
 
 
 def run(ctx):
-    ctx.trusted += ["correspondence harness harness/c06.cpp + generator checks/c06.py",
-                    "hand-written model Model/Loss.lean (the loss headers are modelled, not translated); thread ranges are translated (Gen/ParRegions.lean)",
+    ctx.trusted += ["correspondence harness harness/c06.cpp, harness/c06b.cpp + generator checks/c06.py",
+                    "hand-written models Model/Loss.lean, Model/Loss2.lean, Model/ErrFn.lean (the headers are modelled, not translated); thread ranges are translated (Gen/ParRegions.lean)",
                     "Float instance = IEEE binary64 with the platform libm (same exp/log/sqrt as the C++)"]
     ctx.assumptions += ["exact arithmetic in the theorems; rounding enters only through the correspondence",
                         "labels of classification losses are < number of outputs (the C++ RANGE_CHECKs)"]
     translate(ctx)
-    ctx.prove(["SharkVerif.Props.C06"])
+    ctx.prove(PROOF_MODULES)
     if not ctx.quick:
         ctx.leanchecker(["SharkVerif.Props.C06"])
     exe = build(ctx); drv = ctx.driver("drv_c06")
@@ -125,17 +338,50 @@ def run(ctx):
             # masked regularizers: 0/1 masks and per-parameter strengths
             m = " ".join((str(r.below(2)) if r.chance(1, 2) else dy(r, 0, 3, 1)) for _ in range(k))
             cases.append(["mode rat", f"{r.choice(['onenorm', 'twonorm'])} | {x} | {m}"])
+    # ---- second part: the real ErrorFunction in all its flavours, the cost interface, AUC, the remaining losses
+    for fl, cnt in (("none", per), ("w", per // 2), ("mini", per // 2), ("reg", per // 2), ("comb", per // 4)):
+        for i in range(max(cnt, 4)):
+            # both entry points of every flavour in every run: eval and evalDerivative alternate
+            cases.append(["mode float", gen_ef_case(r, ctx, fl, kind=("eval", "deriv", "deriv")[i % 3])])
+    for _ in range(per // 2):
+        cases.append(["mode float", gen_cost_case(r, ctx)])
+        cases.append(["mode float", gen_auc_case(r, ctx, "auc")])
+        mode, op = gen_misc_case(r, ctx); cases.append([mode, op])
+    have_wmw = wmw_compiles(ctx)
+    if have_wmw:
+        for _ in range(per // 2):
+            cases.append(["mode float", gen_auc_case(r, ctx, "wmw")])
+    allcorpus = load_corpus()
+    ctx.cov["corpus_cases"] = len(allcorpus)
+    # corpus files f<k>_*.txt are the minimised inputs of the recorded defects F-C06-<k>: they run with the recorded-defects cases
+    fcorpus = [c for n, c in allcorpus if re.match(r"f\d+_", n)]
+    corpus = [c for n, c in allcorpus if not re.match(r"f\d+_", n)]
+    cases = corpus + cases
     for c in cases:
         ctx.hist("op_kinds", " ".join(c[1].split()[:2]) if c[1].split()[0] in ("eval", "deriv") else c[1].split()[0])
     ctx.cov["evaluations"] = len(cases)
-    ctx.cov["distinct_nontrivial"] = len({c[1] for c in cases if " | " in c[1] and len(c[1].split("|")) >= 4 and not c[1].split("|")[2].strip().startswith("1 ")})
-    ctx.sample({"ops": cases[0]}); ctx.sample({"ops": cases[-1]}); ctx.sample({"ops": cases[len(EXACT) * per + 3]})
+    ctx.cov["distinct_nontrivial"] = len({c[1] for c in cases if " | " in c[1] and len(c[1].split("|")) >= 4 and not c[1].split("|")[2].strip().startswith("1 ")
+                                          and not (c[1].startswith("ef ") and c[1].split("|")[5].split() in ([], ["1"]))})
+    ctx.sample({"ops": cases[0]}); ctx.sample({"ops": cases[-1]}); ctx.sample({"ops": cases[len(corpus) + len(EXACT) * per + 3]})
+    for fl in ("none", "w", "mini", "reg"):
+        ctx.sample({"ops": next(c for c in cases if c[1].startswith("ef ") and c[1].split("|")[-1].split()[0] == fl)}, limit=10)
+    # ---- defects of the checked tree that are recorded in known_findings.json: each has its own small run, so that
+    # ---- the main run stays clean and the key stays narrow (the harness emits the F-C06-* tag only for the exact signature)
+    fcases = fcorpus + [["mode float", gen_zow_case(r, ctx)] for _ in range(12)]
+    fcases += [["mode float", f"hess crossentropy | | 1 {m} | {r.below(max(m, 2))} | {' '.join(dy(r, -4, 4, 3) for _ in range(m))}"] for m in (1, 1, 2, 3, 4, 3)]
+    fcases += [["mode float", f"ef {k} | squared | 1 linear:{hb}:1 | {t} | {' '.join(['1'] * (1 + hb))} | | | | none"] for k in ("eval", "deriv") for hb in (0, 1) for t in (1, 3)]
+    ctx.hist("op_kinds", "zow", 12); ctx.hist("op_kinds", "hess crossentropy", 6); ctx.hist("op_kinds", "ef empty-dataset", 8)
+    if not have_wmw:
+        ctx.violation("F-C06-3-wilcoxon-mann-whitney-not-instantiable:wmw",
+                      {"probe": WMW_PROBE, "compile": "g++ -std=c++11 -fsyntax-only -I<repo>/include probe.cpp"}, found_input=True,
+                      what="NegativeWilcoxonMannWhitneyStatistic::eval cannot be instantiated (Data has no operator()(i) / size())")
     if drv:
         core.correspond(ctx, "K-C06", cases, [exe], [drv], classify, keep_prefix=1)
+        core.correspond(ctx, "K-C06[recorded-defects]", fcases, [exe], [drv], classify, keep_prefix=1)
     else:
         # the model no longer builds (a regenerated obligation failed): search the implementation alone
         # for a concrete failing input with the independent oracle
-        core.oracle_only(ctx, "K-C06[oracle-only]", cases, [exe], classify)
+        core.oracle_only(ctx, "K-C06[oracle-only]", cases + fcases, [exe], classify)
 
 
 def replay(ctx, rep):
